@@ -111,6 +111,35 @@ pub struct Plan {
     /// result is judged like any other.
     #[serde(default)]
     pub alloc_faults: Vec<(usize, usize, usize)>,
+    /// (client, operation): the call is made from a `Drop` while a panic of the caller's own is
+    /// unwinding (`std::thread::panicking()` is true inside the library)
+    #[serde(default)]
+    pub unwinding_ops: Vec<(usize, usize)>,
+    /// environment variables of the run process (None = removed), set before any thread starts
+    #[serde(default)]
+    pub env: Vec<(String, Option<String>)>,
+    /// (client, operation, name, value): the variable is set (or removed) just before that operation
+    #[serde(default)]
+    pub env_changes: Vec<(usize, usize, String, Option<String>)>,
+}
+
+/// Payload of the caller's own panic under which `unwinding_ops` are executed.
+pub struct HarnessUnwind;
+
+struct RunInDrop<'a>(Option<Box<dyn FnOnce() + 'a>>);
+impl<'a> Drop for RunInDrop<'a> {
+    fn drop(&mut self) {
+        if let Some(f) = self.0.take() {
+            f()
+        }
+    }
+}
+
+fn apply_env(name: &str, value: &Option<String>) {
+    match value {
+        Some(v) => std::env::set_var(name, v),
+        None => std::env::remove_var(name),
+    }
 }
 
 /// `deep_stack` entries at or above this value mean "burn the stack down until (value - LOW_STACK)
@@ -156,6 +185,10 @@ pub struct Probes {
     pub reference_mut_calls: u64,
     #[serde(default)]
     pub allocations_refused: u64,
+    #[serde(default)]
+    pub calls_while_unwinding: u64,
+    #[serde(default)]
+    pub env_changes: u64,
 }
 
 #[derive(Clone, Debug, Serialize, Deserialize)]
@@ -487,13 +520,33 @@ fn run_client_op(w: &Arc<World>, c: usize, j: usize) {
     let depth_kib = w.plan.deep_stack.iter().find(|(cc, jj, _)| *cc == c && *jj == j).map(|(_, _, k)| *k).unwrap_or(0);
     let refuse_from = w.plan.alloc_faults.iter().find(|(cc, jj, _)| *cc == c && *jj == j).map(|(_, _, b)| *b).unwrap_or(0);
     crate::allocseam::arm(refuse_from);
-    let res = std::panic::catch_unwind(std::panic::AssertUnwindSafe(move || {
+    for (_, _, name, value) in w.plan.env_changes.iter().filter(|(cc, jj, _, _)| *cc == c && *jj == j) {
+        // only this client runs right now; the others are parked in the scheduler
+        apply_env(name, value);
+        w.probes.lock().unwrap().env_changes += 1;
+    }
+    let body = move || {
         if depth_kib >= LOW_STACK {
             until_remaining(depth_kib - LOW_STACK, stack_low(), &mut || exec_op(&w2, &opc))
         } else {
             at_depth(depth_kib, &mut || exec_op(&w2, &opc))
         }
-    }));
+    };
+    let res = if w.plan.unwinding_ops.iter().any(|(cc, jj)| *cc == c && *jj == j) {
+        // the call is made from a destructor while this thread is panicking; a panic of the call
+        // itself (injected or not) is caught inside the destructor, as a careful caller would
+        let mut slot = None;
+        let _ = std::panic::catch_unwind(std::panic::AssertUnwindSafe(|| {
+            let _g = RunInDrop(Some(Box::new(|| {
+                slot = Some(std::panic::catch_unwind(std::panic::AssertUnwindSafe(body)));
+            })));
+            std::panic::panic_any(HarnessUnwind);
+        }));
+        w.probes.lock().unwrap().calls_while_unwinding += 1;
+        slot.expect("harness: the destructor ran")
+    } else {
+        std::panic::catch_unwind(std::panic::AssertUnwindSafe(body))
+    };
     crate::allocseam::arm(0);
     let aborted_before = sched::with_ctx(|x| {
         x.in_op = false;
@@ -550,7 +603,7 @@ pub struct AbortSilencer;
 pub fn install_panic_hook() {
     let prev = std::panic::take_hook();
     std::panic::set_hook(Box::new(move |info| {
-        if info.payload().downcast_ref::<InjectedAbort>().is_some() {
+        if info.payload().downcast_ref::<InjectedAbort>().is_some() || info.payload().downcast_ref::<HarnessUnwind>().is_some() {
             return;
         }
         // a panic inside a scheduled client is an observation (`Panic`), not noise
@@ -569,6 +622,9 @@ pub fn execute(plan: Plan, full: bool) -> RunResult {
     jsonpath_rust::verif::set_hook(hook);
     let _ = hook;
     install_panic_hook();
+    for (name, value) in &plan.env {
+        apply_env(name, value);
+    }
     let values: Vec<Value> = plan.contents.iter().map(|t| gen::content_value(t)).collect();
     if sim_repr(plan.repr) {
         simdoc::set_personality(Personality(plan.repr - 1));
@@ -1722,6 +1778,50 @@ pub fn gen_plan_opt(c: &Corpus, run_seed: u64, allow_stress: bool) -> (Plan, Pla
             }
         }
     }
+    // one run in twelve: one to three calls are made while the caller is unwinding
+    let mut unwinding_ops: Vec<(usize, usize)> = vec![];
+    if !stress && rng.chance(1, 12) {
+        for _ in 0..(1 + rng.below(3)) {
+            let cl = rng.below(n_clients);
+            let j = rng.below(clients[cl].len());
+            if matches!(clients[cl][j], Op::Q { .. } | Op::P { .. } | Op::W { .. } | Op::E { .. } | Op::Ref { .. } | Op::Parse { .. }) && !unwinding_ops.contains(&(cl, j)) {
+                unwinding_ops.push((cl, j));
+            }
+        }
+    }
+    // one run in eight has an environment of its own, and may change it between calls
+    let mut env: Vec<(String, Option<String>)> = vec![];
+    let mut env_changes: Vec<(usize, usize, String, Option<String>)> = vec![];
+    if rng.chance(1, 8) {
+        let draw = |rng: &mut Rng| -> (String, Option<String>) {
+            let (name, vals): (&str, &[&str]) = *rng.pick(&[
+                ("RUST_MIN_STACK", &["16384", "65536", "262144", "1048576", "67108864", "0", "x"][..]),
+                ("RUST_BACKTRACE", &["0", "1", "full"][..]),
+                ("RUST_LOG", &["trace", "debug", "off", "jsonpath_rust=trace"][..]),
+                ("LANG", &["C", "POSIX", "tr_TR.UTF-8", "de_DE.UTF-8", "en_US.UTF-8"][..]),
+                ("LC_ALL", &["C", "tr_TR.UTF-8", "ja_JP.eucJP"][..]),
+                ("TZ", &["UTC", "Pacific/Kiritimati", "America/St_Johns"][..]),
+                ("HOME", &["/nonexistent"][..]),
+                ("TMPDIR", &["/nonexistent"][..]),
+                ("NO_COLOR", &["1"][..]),
+                ("RAYON_NUM_THREADS", &["1", "64"][..]),
+                ("JSONPATH_RUST_DEBUG", &["1", "0", "true"][..]),
+                ("JSONPATH_MAX_DEPTH", &["1", "8", "100000"][..]),
+                ("JSONPATH_STRICT", &["1", "0"][..]),
+                ("REGEX_SIZE_LIMIT", &["1", "1000", "100000000"][..]),
+            ]);
+            (name.to_string(), if rng.chance(1, 5) { None } else { Some(rng.pick(vals).to_string()) })
+        };
+        for _ in 0..(1 + rng.below(4)) {
+            env.push(draw(&mut rng));
+        }
+        for _ in 0..rng.below(4) {
+            let cl = rng.below(n_clients);
+            let j = rng.below(clients[cl].len());
+            let (n, v) = draw(&mut rng);
+            env_changes.push((cl, j, n, v));
+        }
+    }
     // one run in twelve: a client makes its last call from a thread-local destructor
     let mut exit_calls = vec![];
     if !stress && rng.chance(1, 12) {
@@ -1750,6 +1850,9 @@ pub fn gen_plan_opt(c: &Corpus, run_seed: u64, allow_stress: bool) -> (Plan, Pla
         clock_jumps,
         exit_calls,
         alloc_faults,
+        unwinding_ops,
+        env,
+        env_changes,
     };
     // fillers select nothing whatever the document (their names occur nowhere), so they need no cold
     // process each; a sample of them is computed cold anyway, to check exactly that assumption
@@ -1918,6 +2021,8 @@ fn remove_op(plan: &Plan, c: usize, from: usize, to: usize) -> Plan {
     p.clock_jumps = plan.clock_jumps.iter().filter_map(|j| if j.c != c { Some(j.clone()) } else if j.op >= from && j.op < to { None } else if j.op >= to { Some(Jump { c: j.c, op: j.op - (to - from), nth: j.nth, secs: j.secs }) } else { Some(j.clone()) }).collect();
     p.deep_stack = plan.deep_stack.iter().filter_map(|(cc, j, k)| if *cc != c { Some((*cc, *j, *k)) } else if *j >= from && *j < to { None } else if *j >= to { Some((*cc, j - (to - from), *k)) } else { Some((*cc, *j, *k)) }).collect();
     p.alloc_faults = plan.alloc_faults.iter().filter_map(|(cc, j, k)| if *cc != c { Some((*cc, *j, *k)) } else if *j >= from && *j < to { None } else if *j >= to { Some((*cc, j - (to - from), *k)) } else { Some((*cc, *j, *k)) }).collect();
+    p.unwinding_ops = plan.unwinding_ops.iter().filter_map(|(cc, j)| if *cc != c { Some((*cc, *j)) } else if *j >= from && *j < to { None } else if *j >= to { Some((*cc, j - (to - from))) } else { Some((*cc, *j)) }).collect();
+    p.env_changes = plan.env_changes.iter().filter_map(|(cc, j, n, v)| if *cc != c { Some((*cc, *j, n.clone(), v.clone())) } else if *j >= from && *j < to { None } else if *j >= to { Some((*cc, j - (to - from), n.clone(), v.clone())) } else { Some((*cc, *j, n.clone(), v.clone())) }).collect();
     p.exit_calls = plan.exit_calls.iter().map(|(cc, r)| if *cc != c { (*cc, *r) } else if *r >= to { (*cc, r - (to - from)) } else if *r >= from { (*cc, from) } else { (*cc, *r) }).collect();
     // faults refer to op indices: shift or drop
     p.faults = plan
@@ -1942,6 +2047,8 @@ fn remove_client(plan: &Plan, c: usize) -> Plan {
     let mut p = plan.clone();
     p.clients.remove(c);
     p.alloc_faults = plan.alloc_faults.iter().filter(|(cc, _, _)| *cc != c).map(|(cc, j, k)| (if *cc > c { cc - 1 } else { *cc }, *j, *k)).collect();
+    p.unwinding_ops = plan.unwinding_ops.iter().filter(|(cc, _)| *cc != c).map(|(cc, j)| (if *cc > c { cc - 1 } else { *cc }, *j)).collect();
+    p.env_changes = plan.env_changes.iter().filter(|(cc, _, _, _)| *cc != c).map(|(cc, j, n, v)| (if *cc > c { cc - 1 } else { *cc }, *j, n.clone(), v.clone())).collect();
     p.exit_calls = plan.exit_calls.iter().filter(|(cc, _)| *cc != c).map(|(cc, r)| (if *cc > c { cc - 1 } else { *cc }, *r)).collect();
     p.deep_stack = plan.deep_stack.iter().filter(|(cc, _, _)| *cc != c).map(|(cc, j, k)| (if *cc > c { cc - 1 } else { *cc }, *j, *k)).collect();
     p.clock_jumps = plan.clock_jumps.iter().filter(|j| j.c != c).map(|j| Jump { c: if j.c > c { j.c - 1 } else { j.c }, op: j.op, nth: j.nth, secs: j.secs }).collect();
@@ -2000,6 +2107,17 @@ pub fn minimise(plan: &Plan, table: &mut ColdTable, class: &str, kind: &str, bud
     if !cur.alloc_faults.is_empty() {
         let mut cand = cur.clone();
         cand.alloc_faults.clear();
+        try_cand(cand, &mut cur, &mut spent, table);
+    }
+    if !cur.unwinding_ops.is_empty() {
+        let mut cand = cur.clone();
+        cand.unwinding_ops.clear();
+        try_cand(cand, &mut cur, &mut spent, table);
+    }
+    if !cur.env.is_empty() || !cur.env_changes.is_empty() {
+        let mut cand = cur.clone();
+        cand.env.clear();
+        cand.env_changes.clear();
         try_cand(cand, &mut cur, &mut spent, table);
     }
     if !cur.exit_calls.is_empty() {
@@ -2383,6 +2501,11 @@ pub fn drive(tier_name: &str, seed: u64, workers: usize) -> i32 {
             *probes_sum.entry("reference_mut_calls_on_private_clones").or_insert(0) += r.probes.reference_mut_calls;
             *probes_sum.entry("allocations_refused_in_runs_that_completed").or_insert(0) += r.probes.allocations_refused;
             alloc_fault_ops += plan.alloc_faults.len() as u64;
+            *probes_sum.entry("calls_made_while_the_caller_is_unwinding").or_insert(0) += r.probes.calls_while_unwinding;
+            *probes_sum.entry("environment_variables_changed_between_calls").or_insert(0) += r.probes.env_changes;
+            if !plan.env.is_empty() {
+                *probes_sum.entry("runs_with_a_varied_environment").or_insert(0) += 1;
+            }
             if r.probes.clock_seam {
                 *probes_sum.entry("runs_with_the_clock_seam_preloaded").or_insert(0) += 1;
             }
@@ -2573,6 +2696,8 @@ pub fn drive(tier_name: &str, seed: u64, workers: usize) -> i32 {
             "call_from_thread_local_destructor": {"what": "a client's last operation is made while its thread is being torn down, from the destructor of a thread-local value of the caller's own registered before one of its operations", "calls": probes_sum.get("calls_from_a_thread_local_destructor").copied().unwrap_or(0)},
             "document_dropped_and_rebuilt": {"rebuilds": probes_sum.get("doc_rebuilds").copied().unwrap_or(0), "at_the_same_address": probes_sum.get("doc_rebuilt_at_same_address").copied().unwrap_or(0)},
             "allocation_failure": {"what": "while an operation is inside the library the allocator refuses blocks of at least 256 B - 1 MiB; the process may abort (the run is then repeated without the fault) or the operation completes and is judged as usual", "operations_planned": alloc_fault_ops, "blocks_refused_in_runs_that_completed": probes_sum.get("allocations_refused_in_runs_that_completed").copied().unwrap_or(0), "runs_ended_by_the_fault_and_repeated_without_it": ALLOC_ABORTS.load(std::sync::atomic::Ordering::Relaxed)},
+            "call_while_unwinding": {"what": "an operation is made from a Drop while a panic of the caller's own unwinds (std::thread::panicking() is true)", "calls": probes_sum.get("calls_made_while_the_caller_is_unwinding").copied().unwrap_or(0)},
+            "environment": {"what": "environment variables (RUST_MIN_STACK, RUST_BACKTRACE, RUST_LOG, LANG, LC_ALL, TZ, HOME, TMPDIR, NO_COLOR, RAYON_NUM_THREADS, JSONPATH_*) differ from run to run and are changed between operations; the cold oracle runs in the driver's own environment", "runs_with_a_varied_environment": probes_sum.get("runs_with_a_varied_environment").copied().unwrap_or(0), "changes_between_operations": probes_sum.get("environment_variables_changed_between_calls").copied().unwrap_or(0)},
             "not_applicable": "network, disk: the library has no such surface"
         },
         "policies": policies,
